@@ -4,7 +4,7 @@
     ThreadsProofs. *)
 From Coq Require Import NArith ZArith List Bool.
 From SFV Require Import Base.Bytes Read.Lazy Read.ReadRun Ctx.Interner Ctx.InternerProofs Ctx.Context Ctx.CtxProofs
-  Ctx.Threads Ctx.ThreadsProofs.
+  Ctx.Threads Ctx.ThreadsProofs Base.RsPrelude Gen.InternGen Ctx.InternGenEq.
 From SFV Require Log.Ring Write.Writer.
 Import ListNotations.
 Open Scope N_scope.
@@ -121,3 +121,30 @@ Example C12_example :
      = [ ObRead (OVal (AStr (0, [SVal 1]) 2)); ObW Writer.WOk; ObW Writer.WOk; ObId 3; ObBytes [146; 161; 98; 161; 98] ]
   /\ snd (lstep 64 false 8 c3 (SRead (RProp (Some 0) [98]))) = ObRead (OVal (AStr (0, [SVal 1]) 2)).
 Proof. vm_compute. repeat split; reflexivity. Qed.
+
+(** * The interner model IS the code (tie by translation, T8)
+
+    [Gen/InternGen.v] is regenerated on every run from provider/src/string_interner.rs by translators/rs2v
+    ([StringInterner::preallocate], [StringInterner::get]; [Vec] = list in push order, [usize] arithmetic at
+    width [W], index / slice bounds as panics, [buf[offset..].as_ptr()] = the offset).  The model's functions
+    compute exactly that. *)
+Theorem C12_code_preallocate : forall (W : N) (trap : bool) (i : interner) (len : N),
+  lenN (ibuf i) + len < 2 ^ W ->
+  StringInterner_preallocate W trap (conv i) len =
+  let '(i', id, off) := preallocate i len in GOk (conv i', (id, Some off)).
+Proof. exact gen_preallocate_eq. Qed.
+
+Theorem C12_code_get : forall (W : N) (trap : bool) (i : interner) (id : N),
+  (forall o l, nthN (spans i) id = Some (o, l) -> o + l < 2 ^ W) ->
+  match StringInterner_get W trap (conv i) id, iget i id with
+  | GOk a, Some b => a = b
+  | GPanic _, None => True
+  | _, _ => False
+  end.
+Proof. exact gen_get_eq. Qed.
+
+(** every id handed out resolves, through the translated Rust, to the bytes that were interned *)
+Theorem C12_code_get_reachable : forall (W : N) (trap : bool) (ss : list (list N)) (id : N) (s : list N),
+  lenN (concat ss) < 2 ^ W -> nthN ss id = Some s ->
+  StringInterner_get W trap (conv (fst (intern_all ss))) id = GOk s.
+Proof. exact gen_get_reachable. Qed.
